@@ -95,6 +95,15 @@ def byteset(fx, sy, fval, depth=0):
 
 
 def term_set(fx, sy, t, depth):
+    if t[0] == "eq" and t[1][0] == "adt" and t[2][0] == "adt" and t[1][1] == t[2][1] == "Option" and t[1][2] == t[2][2] == "Some" \
+            and len(t[1][3]) == len(t[2][3]) == 1:
+        # `Some(c) == terminator.first()` with a known, non-empty terminator: equality of the payloads
+        return term_set(fx, sy, ("eq", t[1][3][0][1], t[2][3][0][1]), depth)
+    if t[0] == "eq" and t[2] == ("bound", 0) and t[1] != ("bound", 0):
+        return term_set(fx, sy, ("eq", t[2], t[1]), depth)
+    if t[0] == "eq" and t[1] == ("bound", 0) and t[2][0] == "index" and t[2][2][0] == "lit" and t[2][2][1] == "int" \
+            and lit_bytes(t[2][1]) is not None and 0 <= t[2][2][2] < len(lit_bytes(t[2][1])):
+        return {lit_bytes(t[2][1])[t[2][2][2]]}, set()       # the k-th byte of a literal
     if t[0] == "eq" and t[1] == ("bound", 0) and t[2][0] == "lit" and t[2][1] == "int":
         return {t[2][2]}, set()
     if t[0] == "bool":
